@@ -239,6 +239,10 @@ func (m *maxInflightWrapper) Resize(max uint32, burst uint32) bool {
 	if m.reserve < GlobalMaxInflightBurstMinInflight {
 		m.reserve = GlobalMaxInflightBurstMinInflight
 	}
+	if m.reserve > int32(max) {
+		// the minimum reserve must not lift the limit above the configured maximum (e.g. max = 0)
+		m.reserve = int32(max)
+	}
 
 	m.max = int32(max)
 
